@@ -4,7 +4,7 @@
 # agree. Not part of MANIFEST commands; results are appended to /verif/crosscheck.log.
 cd /verif || exit 2
 ids="$*"
-[ -z "$ids" ] && ids="C01 C02 C03 C04 C05 C06 C07 C08 C09 C10 C11 C12 C13 C14 C15 C16 C17 C18 C19"
+[ -z "$ids" ] && ids="C01 C02 C03 C04 C05 C06 C07 C08 C09 C10 C11 C12 C13 C14 C15 C16 C17 C18 C19 C20"
 for id in $ids; do
   a=$(./check.sh $id quick --no-evidence 2>&1 | grep -E "^(OK|VIOLATION|INCONCLUSIVE)" | head -1 | cut -c1-160)
   b=$(./check.sh $id quick --no-evidence --solver z3-new 2>&1 | grep -E "^(OK|VIOLATION|INCONCLUSIVE)" | head -1 | cut -c1-160)
